@@ -4284,3 +4284,125 @@ func ruleProbeTruthful(r *Run, rule string) {
 		}
 	}
 }
+
+// ruleSnoopActsOnItsLevel (R06.18): where the coherence layer has two kinds of commands (one
+// constructor per cache level), the handler of a command operates on the cache of that level:
+// within one case of the snoop dispatch every direct cache operation (GetCacheLine,
+// EvictCacheLine, …) targets ONE cache field; the cases of commands built by the same
+// constructor share that field; the two constructors' cases use different fields. An L1 evict
+// handler that evicts from L3 leaves the stale L1 copy readable although its state is Invalid.
+func ruleSnoopActsOnItsLevel(r *Run, rule string) {
+	w := r.W
+	for _, v := range variants(w) {
+		if v.pkg == nil || !v.pipelined() || !usesLineLocks(w, v) {
+			continue
+		}
+		info := v.info
+		// constant -> constructor that sends it
+		ctorOf := map[types.Object]*types.Func{}
+		ctors := map[*types.Func]bool{}
+		for _, f := range v.pkg.Syntax {
+			ast.Inspect(f, func(n ast.Node) bool {
+				call, ok := n.(*ast.CallExpr)
+				if !ok || len(call.Args) < 1 {
+					return true
+				}
+				fn, ok := typeutil.Callee(info, call).(*types.Func)
+				if !ok || fn.Pkg() != v.pkg.Types {
+					return true
+				}
+				sig := fn.Type().(*types.Signature)
+				if sig.Results().Len() != 1 {
+					return true
+				}
+				if p, ok := sig.Results().At(0).Type().(*types.Pointer); !ok || namedOf(p.Elem()) == nil || hasMethodNamed(namedOf(p.Elem()), "done") == nil {
+					return true
+				}
+				if id, ok := ast.Unparen(call.Args[len(call.Args)-1]).(*ast.Ident); ok {
+					if c, ok := info.Uses[id].(*types.Const); ok {
+						ctorOf[c] = fn
+						ctors[fn] = true
+					}
+				}
+				return true
+			})
+		}
+		if len(ctors) < 2 {
+			continue
+		}
+		// snoop dispatch cases
+		cacheOfCtor := map[*types.Func]map[*types.Var]bool{}
+		for _, f := range v.pkg.Syntax {
+			ast.Inspect(f, func(n ast.Node) bool {
+				cc, ok := n.(*ast.CaseClause)
+				if !ok || len(cc.List) != 1 {
+					return true
+				}
+				id, ok := ast.Unparen(cc.List[0]).(*ast.Ident)
+				if !ok {
+					return true
+				}
+				c, ok := info.Uses[id].(*types.Const)
+				if !ok || ctorOf[c] == nil {
+					return true
+				}
+				used := map[*types.Var]bool{}
+				for _, st := range cc.Body {
+					ast.Inspect(st, func(k ast.Node) bool {
+						call, ok := k.(*ast.CallExpr)
+						if !ok {
+							return true
+						}
+						sel, ok := call.Fun.(*ast.SelectorExpr)
+						if !ok || !isCompType(info.TypeOf(sel.X), "LRUCache") {
+							return true
+						}
+						if fs, ok := ast.Unparen(sel.X).(*ast.SelectorExpr); ok {
+							if s := info.Selections[fs]; s != nil && s.Kind() == types.FieldVal {
+								used[s.Obj().(*types.Var)] = true
+							}
+						}
+						return true
+					})
+				}
+				if len(used) == 0 {
+					return true
+				}
+				var names []string
+				for fv := range used {
+					names = append(names, fv.Name())
+				}
+				sort.Strings(names)
+				r.check(len(used) == 1, rule, fmt.Sprintf("%s:snoop-case(%s):one-cache", v.rel, c.Name()), cc.Pos(), "the handler of %s operates on one cache (operated on: %v)", c.Name(), names)
+				if cacheOfCtor[ctorOf[c]] == nil {
+					cacheOfCtor[ctorOf[c]] = map[*types.Var]bool{}
+				}
+				for fv := range used {
+					cacheOfCtor[ctorOf[c]][fv] = true
+				}
+				return true
+			})
+		}
+		var cl []*types.Func
+		for c := range cacheOfCtor {
+			cl = append(cl, c)
+		}
+		sort.Slice(cl, func(i, j int) bool { return cl[i].Name() < cl[j].Name() })
+		seen := map[*types.Var]*types.Func{}
+		for _, c := range cl {
+			var names []string
+			for fv := range cacheOfCtor[c] {
+				names = append(names, fv.Name())
+			}
+			sort.Strings(names)
+			shared := ""
+			for fv := range cacheOfCtor[c] {
+				if o, ok := seen[fv]; ok && o != c {
+					shared = o.Name()
+				}
+				seen[fv] = c
+			}
+			r.check(len(cacheOfCtor[c]) == 1 && shared == "", rule, fmt.Sprintf("%s:commands(%s):level", v.rel, c.Name()), c.Pos(), "the handlers of the commands built by %s all operate on one cache, which no other kind of command operates on (caches: %v; also used by: %q)", c.Name(), names, shared)
+		}
+	}
+}
